@@ -121,3 +121,31 @@ Proof.
   exists u0, 10%nat, e_d19, o_d19, []. vm_compute. repeat split; congruence.
 Qed.
 Print Assumptions C03_keys_sufficient_refuted_D19.
+
+(** D24 (known finding): the effects switch is read by every Computation and reported by no
+    keys().  keys() = [] for a node whose only dependency is the switch, so the restriction drops
+    LABREA.EFFECTS.DISABLED, the (raising) effect runs and the outcome changes — although the
+    dictionary is clean.  Hence the hypothesis on the switch in [C03_keys_sufficient]. *)
+Definition u_raise : N -> list value -> cres := fun f args => if N.eqb f 101 then CRaise 9 else COk (VT f args).
+Definition e_d24 : expr := EComp (EValue (VJ (JInt 1))) [EValue (VF 101 [] [])].
+Definition o_d24 : dict := [(SName A_LABREA, JObj [(SName A_EFFECTS, JObj [(SName A_DISABLED, JBool true)])])].
+
+Theorem C03_keys_sufficient_refuted_effects_switch_D24 :
+  exists u fuel e o K,
+    frag e = true /\ wf_dict o = true /\ clean_at u fuel e o = true /\
+    fst (fst (keysN u fuel e o tt)) = Ok K /\
+    fst (fst (evalN u fuel e o tt)) = Ok (VJ (JInt 1)) /\
+    fst (fst (evalN u fuel e (restrict o K) tt)) = Err (CUser 9) true /\
+    effects_opt_off (restrict o K) <> effects_opt_off o.
+Proof.
+  exists u_raise, 10%nat, e_d24, o_d24, []. vm_compute. repeat split; congruence.
+Qed.
+Print Assumptions C03_keys_sufficient_refuted_effects_switch_D24.
+
+(** the sufficiency theorem on a Template node with an option reference and a parameter *)
+Definition e_tpl : expr := ETemplate [TLit 120; TRef kA; TPar 0] [(0%N, EOption kB None None)].
+Example C03_template_hypotheses_satisfiable :
+  frag e_tpl = true /\ wf_dict o_ok = true /\ no_par o_ok = true /\ clean_at u0 10 e_tpl o_ok = true /\
+  fst (fst (keysN u0 10 e_tpl o_ok tt)) = Ok [kB; kA] /\
+  fst (fst (evalN u0 10 e_tpl (restrict o_ok [kB; kA]) tt)) = Ok (VJ (JStr [TLit 120; TLit 49; TLit 57])).
+Proof. vm_compute. repeat split. Qed.
